@@ -55,7 +55,10 @@ KINDS3 = [k + "3" for k in KINDS2]
 # one thread asks for a name along with the object (accepted, or rejected because the name or
 # symbol is taken: the rejected thread gets a ValueError, the others must still agree)
 KINDS_NAMED = ["prefix_named", "prefix_rejected", "unit_named", "unit_rejected", "dim_named", "dim_rejected"]
-KINDS = KINDS2 + KINDS3 + KINDS_NAMED
+# nested expressions (the inner operand is itself a first-time construction and is used at once),
+# and two threads that define two *different* new units which are multiplied afterwards
+KINDS_NESTED = ["unit_pow_mul", "unit_pow_mul3", "two_defines"]
+KINDS = KINDS2 + KINDS3 + KINDS_NAMED + KINDS_NESTED
 # exhaustively enumerated sub-space: (kind, class whose __new__ window lines are decision points)
 ENUM = [
     ("dim_div", "Dimension"),
@@ -102,7 +105,7 @@ def setup(tier):
         WINDOWS[win.code] = win
     TARGET = next(iter(WINDOWS)).co_filename
     NS.update(
-        Meter=si.Meter, Kilo=si.Kilo, Length=m.Length, Time=m.Time, Prefix=m.Prefix,
+        Meter=si.Meter, Second=si.Second, Kilo=si.Kilo, Length=m.Length, Time=m.Time, Prefix=m.Prefix,
         Unit=m.Unit, Dimension=m.Dimension, IdentityPrefix=m.IdentityPrefix,
     )
     M = m
@@ -138,7 +141,7 @@ def _schedules():
 
 
 def strategy(tier):
-    kinds = st.sampled_from(KINDS2 + KINDS2 + KINDS3 + KINDS_NAMED)
+    kinds = st.sampled_from(KINDS2 + KINDS2 + KINDS3 + KINDS_NAMED + KINDS_NESTED)
     return st.builds(lambda k, s: {"kind": k, "schedule": s}, kinds, _schedules())
 
 
@@ -162,6 +165,7 @@ class Plan:
 
         self.unit_den = None  # ((prefix base, prefix exponent), {id(factor): exponent})
         self.rejects = set()  # thunks whose requested name/symbol is taken: ValueError expected
+        self.later_only = []  # further spellings evaluated single-threaded after the run
         Unit, Dimension, IdentityPrefix = g["Unit"], g["Dimension"], g["IdentityPrefix"]
         self.prefix_key = None
         self.dim_key = None
@@ -212,6 +216,21 @@ class Plan:
             self.unit_den = ((10, 3 * n), {id(Meter): n})
             self.prefix_key = (10, 3 * n)
             self.dim_key = tuple(e * n for e in Length.exponents)
+        elif base == "unit_pow_mul":
+            self.target = "Unit"
+            Second = g["Second"]
+            add(f"Meter**{n}*Second", lambda: Meter**n * Second)
+            add(f"Meter**{n}*Second", lambda: Meter**n * Second)
+            if three:
+                add(f"Second*Meter**{n}", lambda: Second * Meter**n)
+            self.later_only = [(f"Second*Meter**{n}", lambda: Second * Meter**n), (f"(Meter**{n}/Second**-1)", lambda: Meter**n / Second**-1)]
+            self.unit_den = ((0, 0), {id(Meter): n, id(Second): 1})
+            self.prefix_key = (0, 0)
+            self.dim_key = tuple(a_ * n + b_ for a_, b_ in zip(Length.exponents, Time.exponents))
+        elif base == "two_defines":
+            self.target = "Pair"
+            add(f"Unit.define(Length,'vfa{n}')", lambda: Unit.define(Length, f"vfa{n}", f"vfa{n}"))
+            add(f"Unit.define(Time,'vfb{n}')", lambda: Unit.define(Time, f"vfb{n}", f"vfb{n}"))
         elif base in ("prefix_named", "prefix_rejected"):
             self.target = "Prefix"
             a, b = Prefix(7, n - 1), Prefix(7, 1)
@@ -340,6 +359,28 @@ def _judge(plan: Plan, observed: List[Tuple[str, Any]], new_entries: Dict[str, l
             out.fail(_bucket(cls_name), " | ".join(_uniq_text(failed[cls_name])))
 
 
+def _judge_pair(plan, results, raised, out):
+    """two different new base units, defined concurrently: afterwards their product is one object
+    however it is written"""
+    m = M
+    if any(raised) or len(results) != 2 or not all(isinstance(r, m.Unit) for r in results):
+        return  # a raising thread has been reported already
+    a, b = results
+    if a is b:
+        out.fail("C20:wrong-value:two_defines", f"two different definitions returned one object {a!r}")
+        return
+    try:
+        forms = [("a*b", a * b), ("b*a", b * a), ("(a**2*b)/a", (a**2 * b) / a), ("b/a**-1", b / a**-1)]
+    except Exception as e:  # noqa
+        out.fail(f"C20:raised-later:{type(e).__name__}@{core.innermost_frame(e)}", f"products of the two units defined concurrently raised {type(e).__name__}: {e}")
+        return
+    if len(_uniq(o for _t, o in forms)) > 1:
+        out.fail(_bucket("Unit"), f"{plan.exprs[0]} || {plan.exprs[1]}: " + _roles(forms) + " (one product, several objects)")
+    entries = [u for u in m.Unit._known.values() if _unit_den(u) == ((0, 0), {id(a): 1, id(b): 1})]
+    if len(entries) != 1:
+        out.fail(_bucket("Unit"), f"{plan.exprs[0]} || {plan.exprs[1]}: {len(entries)} registry entries denote a*b")
+
+
 def _uniq_text(texts):
     out = []
     for t in texts:
@@ -390,7 +431,7 @@ def run_case(case) -> core.Outcome:
         raise AssertionError(f"harness: dimension {plan.dim_key} is not fresh")
     if plan.target == "Prefix" and plan.prefix_key in tables["Prefix"]:
         raise AssertionError(f"harness: prefix {plan.prefix_key} is not fresh")
-    if plan.target == "Unit":
+    if plan.target == "Unit" and plan.base != "unit_pow_mul":
         p = tables["Prefix"].get(plan.prefix_key)
         if p is not None and ((p, ((NS["Meter"], plan.n),)) in tables["Unit"]):
             raise AssertionError(f"harness: unit {plan.exprs[0]} is not fresh")
@@ -413,7 +454,7 @@ def run_case(case) -> core.Outcome:
             observed.append((f"t{i}", r))
     done_exprs = set()
     for i, th in enumerate(plan.thunks):
-        if plan.exprs[i] in done_exprs:
+        if plan.exprs[i] in done_exprs or plan.target == "Pair":  # a definition is made once
             continue
         done_exprs.add(plan.exprs[i])
         try:
@@ -425,8 +466,16 @@ def run_case(case) -> core.Outcome:
                 f"C20:raised-later:{type(e).__name__}@{core.innermost_frame(e)}",
                 f"single-threaded evaluation of {plan.exprs[i]} after the run raised {type(e).__name__}: {e}",
             )
+    for text, th in plan.later_only:
+        try:
+            observed.append((f"later({text})", th()))
+        except Exception as e:  # noqa
+            out.fail(f"C20:raised-later:{type(e).__name__}@{core.innermost_frame(e)}", f"single-threaded evaluation of {text} after the run raised {type(e).__name__}: {e}")
     new_entries = {c: [val for _k, val in itertools.islice(tables[c].items(), before[c], None)] for c in CLASSES}
-    _judge(plan, observed, new_entries, out)
+    if plan.target == "Pair":
+        _judge_pair(plan, results, s.raised, out)
+    else:
+        _judge(plan, observed, new_entries, out)
 
     out.classes.append(kind)
     out.classes.append(f"mode:{mode}")
@@ -474,7 +523,7 @@ def enumerate_cases(tier):
     # every k up to the length of the thunk, and with the roles swapped; in the thorough tier
     # also every (k1, k2) two-preemption schedule
     PREEMPT_STATS.clear()
-    for kind in KINDS2 + KINDS_NAMED:
+    for kind in KINDS2 + KINDS_NAMED + ["unit_pow_mul", "two_defines"]:
         probe = {"kind": kind, "schedule": [0] * 600, "mode": "line"}
         yield probe
         if _LAST.get("case") != core.canon(probe):
@@ -489,6 +538,15 @@ def enumerate_cases(tier):
             for k1 in range(1, min(length, 60), 2):
                 for k2 in range(1, min(length, 60), 2):
                     yield {"kind": kind, "schedule": [0] * k1 + [1] * k2 + [0] * 600, "mode": "line"}
+                    n += 1
+        if kind == "unit_pow_mul":
+            # a one-line visit: thread 0 runs k1 lines, thread 1 runs k2 lines, thread 0 runs ONE
+            # line, thread 1 finishes, thread 0 finishes -- a transient state that lasts a single
+            # line of one thread is seen by the other only under such a schedule
+            stride = 6 if tier == "quick" else 1
+            for k1 in range(1, length + 1):
+                for k2 in range(1 + k1 % stride, length + 1, stride):
+                    yield {"kind": kind, "schedule": [0] * k1 + [1] * k2 + [0] + [1] * 600, "mode": "line"}
                     n += 1
         PREEMPT_STATS[kind] = n
     for kind, focus in (ENUM[:QUICK_ENUM] if tier == "quick" else ENUM):
